@@ -84,3 +84,39 @@ func verifC19Storage(k int) {
 	verifAssert(s.RetrieveHostRule(ruleListIdxToStorageIdx(4, 0)) == nil, "c19: the typed helper returns nil on error")
 	verifAssert(s.RetrieveNetworkRule(idxA) == nil, "c19: a host rule is not a network rule")
 }
+
+// verifC19File: a storage over a file-backed list whose file is closed under it.
+// What was materialised before stays served; everything else is an error, never
+// a crash and never a wrong rule.
+func verifC19File(bufLen int) {
+	text := "||" + verifString("l0", 1, "ab") + ".org^\n||b.net^\n"
+	l := &FileRuleList{ID: 1, File: verifFile(text), buffer: make([]byte, bufLen)}
+	s, err := NewRuleStorage([]RuleList{l})
+	verifAssert(err == nil, "c19: storage is built")
+	a := ruleListIdxToStorageIdx(1, 0)
+	b := ruleListIdxToStorageIdx(1, 9)
+	var ra rules.Rule
+	if verifBool("warmA") {
+		ra, err = s.RetrieveRule(a)
+		verifAssert(err == nil && ra != nil && ra.Text() == text[:8], "c19: the rule is read before the fault")
+	}
+	if verifBool("closeStorage") {
+		_ = s.Close()
+	} else {
+		_ = l.File.Close() // the handle is closed behind the list's back
+	}
+	r, e := s.RetrieveRule(a)
+	if ra != nil {
+		verifReach("c19.file.cached")
+		verifAssert(e == nil && r == ra, "c19: a rule materialised before Close is still served after it")
+	} else {
+		verifReach("c19.file.lost")
+		verifAssert(e != nil && r == nil, "c19: a closed list yields an error and no rule")
+	}
+	r2, e2 := s.RetrieveRule(b)
+	verifAssert(e2 != nil && r2 == nil, "c19: a closed list yields an error and no rule")
+	verifAssert(s.RetrieveNetworkRule(b) == nil && s.RetrieveHostRule(b) == nil, "c19: the typed helpers return nil on error")
+	// the scanner of a closed list yields nothing
+	sc := s.NewRuleStorageScanner()
+	verifAssert(!sc.Scan(), "c19: scanning a closed list yields no rule")
+}
